@@ -66,6 +66,8 @@ def program(case):
         for nz in case.get("noise", []):
             if nz["at"] == oid:       # an unrelated literal evaluated at this point of the history
                 lines.append(f"{{**o{nz['a']}, **o{nz['b']}}}")
+                # the same two objects expanded into the keyword arguments of a function call and of a method call
+                lines.append(f"{{|zq: 0| zq}}(**o{nz['a']}, **o{nz['b']}); {{zm: m{{|zq: 0| zq}}}}.zm(**o{nz['a']}, **o{nz['b']})")
     n = len(case["objs"])
     BUILTIN_DEPTH = {"obj": 2, "int": 4, "str": 3, "arr": 3}
     for o in range(n):
